@@ -43,6 +43,8 @@ func main() {
 		runRuntime(checkC05())
 	case "C06":
 		runRuntime(checkC06())
+	case "C08":
+		runRuntime(checkC08())
 	case "gen-sample":
 		// debugging aid: print the DSL of a few specs
 		run := vc.New("sample")
